@@ -252,7 +252,19 @@ impl<'a, 'tcx> Cx<'a, 'tcx> {
         }
         if let Some(v) = val {
             match v {
-                ConstValue::Scalar(Scalar::Int(s)) => o.push(("v", scalar_int(s, ty))),
+                ConstValue::Scalar(Scalar::Int(s)) => {
+                    o.push(("v", scalar_int(s, ty)));
+                    if let ty::Adt(def, _) = ty.kind() {
+                        if def.is_enum() {
+                            let bits = s.to_bits(s.size());
+                            for (vi, vd) in def.variants().iter_enumerated() {
+                                if def.discriminant_for_variant(tcx, vi).val == bits {
+                                    o.push(("variant", J::S(vd.name.to_string())));
+                                }
+                            }
+                        }
+                    }
+                }
                 ConstValue::ZeroSized => o.push(("zst", J::B(true))),
                 ConstValue::Slice { alloc_id, meta } => {
                     // string literals
@@ -531,7 +543,14 @@ fn collect_const_defs<'tcx>(tcx: TyCtxt<'tcx>, rv: &Rvalue<'tcx>, out: &mut Vec<
             ops.push(&ab.0);
             ops.push(&ab.1);
         }
-        Rvalue::Aggregate(_, v) => {
+        Rvalue::Aggregate(ak, v) => {
+            if let AggregateKind::Adt(did, vidx, _, _, _) = &**ak {
+                if v.is_empty() {
+                    // fieldless enum variant literal, e.g. `&Validate::Yes`
+                    let def = tcx.adt_def(*did);
+                    out.push(format!("variant:{}::{}#{}", path_str(tcx, *did), def.variant(*vidx).name, vidx.as_usize()));
+                }
+            }
             for o in v.iter() {
                 ops.push(o);
             }
@@ -543,6 +562,18 @@ fn collect_const_defs<'tcx>(tcx: TyCtxt<'tcx>, rv: &Rvalue<'tcx>, out: &mut Vec<
             if let Const::Unevaluated(uv, _) = c.const_ {
                 if uv.promoted.is_none() {
                     out.push(path_str(tcx, uv.def));
+                }
+            }
+            if let Const::Val(ConstValue::Scalar(Scalar::Int(si)), ty) = c.const_ {
+                if let ty::Adt(def, _) = ty.kind() {
+                    if def.is_enum() {
+                        let bits = si.to_bits(si.size());
+                        for (vi, v) in def.variants().iter_enumerated() {
+                            if def.discriminant_for_variant(tcx, vi).val == bits {
+                                out.push(format!("variant:{}::{}#{}", path_str(tcx, def.did()), v.name, vi.as_usize()));
+                            }
+                        }
+                    }
                 }
             }
         }
